@@ -18,10 +18,20 @@ def oracle_many(cases, timeout=600):
     return res
 
 
-def fails(d, key):
+KNOWN_CLASSES = {"c01": ["kfa", "kfb", "kfc", "kfd"], "c04": ["kfa"], "c06": ["kfa"], "c07": [], "c08": ["kfb", "kfc", "kfd"],
+                 "c09": ["kfa"], "c10w": [], "c10": ["f4"], "c11": [], "c19": [], "c05": []}
+
+
+def in_known_class(d, key):
+    return any(d.get(x) == "1" for x in KNOWN_CLASSES.get(key, []))
+
+
+def fails(d, key, respect_classes=True):
     if key == "panic":
         return d.get("class") == "panic"
-    return d.get("in_err") == "0" and d.get(key) == "0"
+    if d.get("in_err") != "0" or d.get(key) != "0":
+        return False
+    return not (respect_classes and in_known_class(d, key))
 
 
 def shrink(w, tab, reorder, src, key, max_rounds=40):
